@@ -2,8 +2,8 @@ pub mod model;
 
 use nom::branch::alt;
 use nom::bytes::complete::{tag, take_till};
-use nom::character::complete::{char, digit0, digit1, multispace0};
-use nom::combinator::{map, opt, recognize};
+use nom::character::complete::{char, digit0, digit1, multispace0, satisfy};
+use nom::combinator::{map, not, opt, recognize};
 use nom::multi::{many0, separated_list0, separated_list1};
 use nom::sequence::{delimited, preceded, terminated, tuple};
 use nom::IResult;
@@ -429,8 +429,13 @@ fn number(input: &str) -> IResult<&str, &str> {
 ///
 /// [\[35\] FunctionName](https://triple-underscore.github.io/XML/xpath10-ja.html#NT-FunctionName)
 fn function_name(input: &str) -> IResult<&str, QName> {
-    // TODO:
-    qname(input)
+    preceded(
+        not(terminated(
+            node_type,
+            not(satisfy(xml_nom::xmlchar::is_name_char)),
+        )),
+        qname,
+    )(input)
 }
 
 /// '$' QName
